@@ -2815,3 +2815,99 @@ pub proof fn lemma_children_deq<T>(s: Seq<Node<T>>, w: Ranks, p: int)
     }
 }
 
+// ---- edge traversal (C09) ---------------------------------------------------------------------------
+pub open spec fn edge_node(e: NodeEdge) -> NodeId {
+    match e {
+        NodeEdge::Start(n) => n,
+        NodeEdge::End(n) => n,
+    }
+}
+
+/// the documented depth-first step: Start(n) -> Start(first child) or End(n); End(n) -> Start(next
+/// sibling) or End(parent)
+pub open spec fn next_edge<T>(s: Seq<Node<T>>, e: NodeEdge) -> Option<NodeEdge> {
+    match e {
+        NodeEdge::Start(n) => match s[n.idx()].first_child {
+            Some(c) => Some(NodeEdge::Start(c)),
+            None => Some(NodeEdge::End(n)),
+        },
+        NodeEdge::End(n) => match s[n.idx()].next_sibling {
+            Some(x) => Some(NodeEdge::Start(x)),
+            None => match s[n.idx()].parent {
+                Some(p) => Some(NodeEdge::End(p)),
+                None => None,
+            },
+        },
+    }
+}
+
+pub open spec fn prev_edge<T>(s: Seq<Node<T>>, e: NodeEdge) -> Option<NodeEdge> {
+    match e {
+        NodeEdge::End(n) => match s[n.idx()].last_child {
+            Some(c) => Some(NodeEdge::End(c)),
+            None => Some(NodeEdge::Start(n)),
+        },
+        NodeEdge::Start(n) => match s[n.idx()].previous_sibling {
+            Some(x) => Some(NodeEdge::End(x)),
+            None => match s[n.idx()].parent {
+                Some(p) => Some(NodeEdge::Start(p)),
+                None => None,
+            },
+        },
+    }
+}
+
+/// C09: the two steps are inverses of each other on a well-formed forest
+pub proof fn lemma_edge_inverse<T>(s: Seq<Node<T>>, e: NodeEdge)
+    requires
+        links_ok(s),
+        tgt_ok(s, Some(edge_node(e))),
+    ensures
+        next_edge(s, e) is Some ==> prev_edge(s, next_edge(s, e)->0) == Some(e) && tgt_ok(s, Some(edge_node(next_edge(s, e)->0))),
+        prev_edge(s, e) is Some ==> next_edge(s, prev_edge(s, e)->0) == Some(e) && tgt_ok(s, Some(edge_node(prev_edge(s, e)->0))),
+{
+    reveal(node_ok);
+    let n = edge_node(e);
+    let i = n.idx();
+    assert(node_ok(s, i));
+    if s[i].first_child is Some {
+        let c = s[i].first_child->0;
+        assert(node_ok(s, c.idx()));
+        lemma_id_eq(s[c.idx()].parent->0, n);
+    }
+    if s[i].last_child is Some {
+        let c = s[i].last_child->0;
+        assert(node_ok(s, c.idx()));
+        lemma_id_eq(s[c.idx()].parent->0, n);
+    }
+    if s[i].next_sibling is Some {
+        let c = s[i].next_sibling->0;
+        assert(node_ok(s, c.idx()));
+        lemma_id_eq(s[c.idx()].previous_sibling->0, n);
+    }
+    if s[i].previous_sibling is Some {
+        let c = s[i].previous_sibling->0;
+        assert(node_ok(s, c.idx()));
+        lemma_id_eq(s[c.idx()].next_sibling->0, n);
+    }
+    if s[i].parent is Some {
+        let p = s[i].parent->0;
+        assert(node_ok(s, p.idx()));
+        if s[i].next_sibling is None {
+            lemma_id_eq(s[p.idx()].last_child->0, n);
+        }
+        if s[i].previous_sibling is None {
+            lemma_id_eq(s[p.idx()].first_child->0, n);
+        }
+    }
+}
+
+/// measure of the `find_map` loop inside `Descendants::next`: a run of End edges only climbs
+pub open spec fn desc_measure(w: Ranks, e: Option<NodeEdge>) -> nat {
+    match e {
+        None => 0,
+        Some(NodeEdge::Start(_)) => 1,
+        Some(NodeEdge::End(n)) => ((w.depth)(n.idx()) + 2) as nat,
+    }
+}
+
